@@ -16,7 +16,7 @@ func init() {
 		"(R14a) every place that consolidates the three kinds of variables orders them (locals >) user vars > vars > defaults, FlattenStack lets later arguments win and is called in that order, and the workflow stack wins over each task-template map; "+
 		"(R14b) inside one kind the nearer definition overrides the farther one (merge of own copy over the parent's flattening with override; Get looks at the own map first); "+
 		"(R14c) per template stage, which kinds include the role's own level matches the documented stage table (0,1: none; 2: defaults; 3: defaults+vars; 4,5: all); "+
-		"(R14d) every role kind wraps each of its three maps around the parent's corresponding map, and the environment adapter exposes the global defaults/vars/user vars in those slots; (R14e) after template processing every role kind writes each of its locals (iterator variables) into its own vars unconditionally, so that they are the nearest definition for its task and descendants. Does not decide values for every tree nor template evaluation.", runC14)
+		"(R14d) every role kind wraps each of its three maps around the parent's corresponding map, and the environment adapter exposes the global defaults/vars/user vars in those slots; (R14e) after template processing every role kind writes each of its locals (iterator variables) into its own vars unconditionally, so that they are the nearest definition for its task and descendants; (R14f) Set on a level always stores into that level's own map (a value equal to the inherited one is still an own definition). Does not decide values for every tree nor template evaluation.", runC14)
 }
 
 func runC14(c *an.Ctx) {
@@ -25,6 +25,7 @@ func runC14(c *an.Ctx) {
 	r14c(c)
 	r14d(c)
 	r14e(c)
+	r14f(c)
 }
 
 // kindOf classifies a value by the variable-kind field it was flattened from.
@@ -587,4 +588,49 @@ func r14e(c *an.Ctx) {
 		c.Ob("(*core/workflow."+kind+").ProcessTemplates|locals-exported-to-own-vars", where.Pos(), found && len(cond) == 0,
 			"after template processing every Local (iterator variable) must be written into the role's own Vars, unconditionally (loop found: %v, conditional writes at %v): a Local that is skipped because an ancestor already defines the key leaves the ancestor's value visible to the role's task and descendants, although the iterator variable is the nearest definition", found, cond)
 	}
+}
+
+// r14f: "an empty value is a definition", and so is a value equal to the inherited one: Set must store into the own map on
+// every path (bar the nil-receiver / nil-map refusals), whatever Get would currently answer.
+func r14f(c *an.Ctx) {
+	c.Rule("R14f", "WrapMap.Set stores into the level's own map on every path that reports success; nothing but the nil guards may skip the store", 1)
+	fn := c.MustFn("common/gera", "WrapMap.Set")
+	if fn == nil {
+		return
+	}
+	c.Subject()
+	var stores []ssa.Instruction
+	an.Instrs(fn, func(in ssa.Instruction) {
+		if mu, ok := in.(*ssa.MapUpdate); ok && isFieldNamed(an.Strip(mu.Map), "theMap") {
+			stores = append(stores, mu)
+		}
+	})
+	ok := len(stores) > 0
+	var why []string
+	// every return that can be true passes a store
+	for _, ret := range an.Returns(fn) {
+		v := an.RetVal(ret, 0)
+		if k, isC := v.(*ssa.Const); isC && k.Value != nil && k.Value.String() == "false" {
+			// a refusal: only allowed under the nil guards
+			guarded := an.GuardedByAll(ret.Block(), func(a an.Atom) bool {
+				if a.Y == nil || !an.IsNilConst(a.Y) || a.Op != token.EQL {
+					return false
+				}
+				if _, isP := a.X.(*ssa.Parameter); isP {
+					return true
+				}
+				return isFieldNamed(an.Strip(a.X), "theMap")
+			})
+			if !guarded {
+				ok = false
+				why = append(why, "refuses at "+c.PosStr(ret.Pos())+" for a reason other than a nil receiver/map")
+			}
+			continue
+		}
+		if an.PathFromEntryAvoiding(fn, func(in ssa.Instruction) bool { return in == ssa.Instruction(ret) }, stores) {
+			ok = false
+			why = append(why, "returns at "+c.PosStr(ret.Pos())+" without having stored")
+		}
+	}
+	c.Ob("(*common/gera.WrapMap).Set|stores-unconditionally", fn.Pos(), ok, "Set must write the key into this level's own map whenever it does not refuse: skipping the store because the inherited value already equals it leaves the level without an own definition, and a later change of the ancestor shows through %v", why)
 }
